@@ -375,6 +375,19 @@ def type_case(ctx, pydsdl, u, seed, text_first, workdir):
         ctx.mon("eq-implies-same")
         if eq is True and must_differ:
             ctx.violation("C18/eq-ignores-difference", "composites one edit apart (%s) compare equal although class/str/bit length set differ: %r vs %r" % (what, a, c), c2)
+        # arrays (and fields / constants typed by them) over the two revisions: the element types share name and version, so the
+        # string forms coincide and only the bit length sets tell the arrays apart
+        for kind, cap in (("fixed", rng.choice([1, 2, 3])), ("var", rng.choice([1, 2, 3]))):
+            mk = pydsdl.FixedLengthArrayType if kind == "fixed" else pydsdl.VariableLengthArrayType
+            xa, xc = mk(a, cap), mk(c, cap)
+            eqx = pair_contract(ctx, xa, xc, "%s array over composites one edit apart (%s)" % (kind, what), c2)
+            tx, ty = lay.tree((kind, ("ref", len(u) - 1), cap)), lay2.tree((kind, ("ref", len(u2) - 1), cap))
+            differ_x = (R.ref_min(tx), R.ref_max(tx)) != (R.ref_min(ty), R.ref_max(ty)) or (xa.bit_length_set != xc.bit_length_set)
+            ctx.mon("eq-implies-same")
+            if eqx is True and (str(xa) != str(xc) or differ_x):
+                ctx.violation("C18/eq-ignores-difference", "%s arrays of %d over composites one edit apart (%s) compare equal although the bit length sets differ: %r vs %r" % (
+                    kind, cap, what, xa, xc), c2)
+            pair_contract(ctx, pydsdl.Field(xa, "arr"), pydsdl.Field(xc, "arr"), "fields typed by such arrays", c2)
         for fa, fc, fd, fd2 in zip(a.attributes, c.attributes, u[-1]["fields"], u2[-1]["fields"]):
             e2 = pair_contract(ctx, fa, fc, "attribute edit %s" % what, c2)
             same_desc = fd == fd2 and fa.data_type == fc.data_type
